@@ -16,6 +16,8 @@ mod shadowsocks;
 mod template;
 mod trojan;
 mod vmess;
+#[cfg(octo_squirrel_verif)]
+pub mod verif_hooks;
 
 pub async fn main() -> anyhow::Result<()> {
     let _ = tokio_rustls::rustls::crypto::aws_lc_rs::default_provider().install_default();
